@@ -58,6 +58,9 @@ struct Env {
     base: PathBuf,
     /// The current directory handed to `from_arg_matches`.
     cwd: PathBuf,
+    /// The printed default configuration is refused: every other refusal is
+    /// attributed to that one cause.
+    defaults_refused: bool,
 }
 
 #[derive(Clone, Debug)]
@@ -128,7 +131,8 @@ fn str_list(key: &str, class: &str) -> Vec<Vec<u8>> {
     match class {
         "empty" => vec![],
         "one" => vec![format!("one-{key}").into_bytes()],
-        "several" => vec![format!("b-{key}").into_bytes(), format!("a-{key}").into_bytes(), format!("b-{key}").into_bytes()],
+        "several" => vec![format!("b-{key}").into_bytes(), format!("a-{key}").into_bytes(), format!("b-{key}").into_bytes(),
+                          format!("c-{key}").into_bytes()],
         "special" => SPECIAL_STRS.iter().map(|c| str_value(key, c)).collect(),
         x => panic!("list class {x}"),
     }
@@ -159,7 +163,7 @@ impl Env {
             "empty" => vec![],
             "one" | "string" => vec![self.abs(format!("one-{key}").as_bytes())],
             "several" => vec![self.abs(format!("b-{key}").as_bytes()), self.abs(format!("a-{key}").as_bytes()),
-                              self.abs(format!("b-{key}").as_bytes())],
+                              self.abs(format!("b-{key}").as_bytes()), self.abs(format!("c-{key}").as_bytes())],
             "special" => ["rel", "special", "ctrl"].iter().map(|c| self.path_value(key, c)).collect(),
             "nonutf8" => vec![self.path_value(key, "typ"), self.path_value(key, "nonutf8")],
             x => panic!("path list class {x}"),
@@ -516,7 +520,10 @@ pub fn main(args: &Args) -> i32 {
     std::fs::create_dir_all(&cwd).unwrap();
     // Hermetic default configuration: $HOME/.routinator.conf does not exist.
     std::env::set_var("HOME", &home);
-    let env = Env { base, cwd };
+    let mut env = Env { base, cwd, defaults_refused: false };
+    if let Outcome::Rejected { .. } = roundtrip(&env, &concretise(&env, &[])) {
+        env.defaults_refused = true;
+    }
 
     let mut behaviours = read_behaviours(args.input.as_deref().expect("--in"));
     // smallest behaviours first, so that the behaviour kept for a signature is a minimal one
@@ -584,13 +591,13 @@ fn one(rep: &mut Report, env: &Env, b: &Value, skipped: &mut BTreeMap<String, u6
             // Whom to blame: every single setting whose own printed file is refused; the
             // combination if there is none.
             let mut blamed: Vec<&Setting> = Vec::new();
-            if sets.len() > 1 {
+            if sets.len() > 1 && !env.defaults_refused {
                 for s in &sets {
                     let c1 = concretise(env, std::slice::from_ref(s));
                     if let Outcome::Rejected { .. } = roundtrip(env, &c1) { blamed.push(s) }
                 }
             }
-            let sigs: Vec<String> = if sets.is_empty() {
+            let sigs: Vec<String> = if sets.is_empty() || env.defaults_refused {
                 vec!["roundtrip/-/defaults".into()]
             }
             else if sets.len() == 1 {
